@@ -1,7 +1,8 @@
 """C04 — see DESIGN.md section 6/C04. Model M1 (lean/JoblibModel/ParallelProto.lean), theorems lean/JoblibProofs/C04.lean,
-deterministic scenarios through harness/ctl.py, oracles in harness/m1.py."""
+deterministic scenarios through harness/ctl.py, oracles in harness/m1.py; exception transport of the pool backends
+(lean/JoblibModel/ExcTransport.lean) tied by harness/exc_transport.py."""
 
-from .. import m1, native_pool
+from .. import exc_transport, m1, native_pool
 
 REQUIRED_THEOREMS = [
     "C04.error_surfaces",
@@ -36,6 +37,11 @@ REQUIRED_THEOREMS = [
     "C04.failed_start_counterexample",
     "C04.failed_start_unguarded_blocks_next_call",
     "C04.no_fault_is_old_model",
+    "C04.transport_preserves_outcome",
+    "C04.thread_transport_is_exact",
+    "C04.raw_pool_exception_is_raised",
+    "C04.returned_exception_instance_is_raised_witness",
+    "C04.transport_table",
     "M1L.reachable_inv",
     "M1L.reachable_inv2",
     "M1L.error_surfaces",
@@ -81,6 +87,7 @@ REQUIRED_THEOREMS = [
 EXTRA_LEAN_MODULES = ("JoblibProofs.M1L", "JoblibProofs.M1LSeq", "JoblibProofs.M1LU",)
 EXTRA_LEAN_TARGETS = ("drv_m1l", "drv_m1lseq", "drv_m1lu",)
 TRUSTED_EXTRA = [
+    "exception transport (lean/JoblibModel/ExcTransport.lean, C04.transport_*): the pickle round trip of an exception instance is a parameter of the model constrained by 'a round trip that succeeds preserves class and args' (checked on the grid by the oracle, not proved of pickle); lists of results round-trip to themselves; the tie (harness/exc_transport.py) runs the real _TracebackCapturingWrapper / retrieve_result_callback / _ExceptionWithTraceback in-process against a Python TRANSCRIPTION of the model (no Lean driver run), whose finite table is compared with the literal rows of the proved theorem C04.transport_table; loky's executor-side capture and the content of the traceback string are covered by native runs only",
     "M1LU (lean/JoblibModel/ParallelLockU.lean, theorems M1LU.*): the model M1L extended at the SAME granularity to return_as='generator_unordered' and to timeout (fake clock: one tick per time.sleep of the retrieval loop; time.time() is not a scheduling point): _jobs_set, the control-job pick under the lock, get_status with a timeout, _register_outcome(TimeoutError) run by the caller without the lock, the unlocked write of _jobs_set in finally; one call on a fresh object; next(iter(_jobs_set)) picks an arbitrary element: the model takes the pick from a script, the harness installs an insertion-ordered set that follows the same script (so every pick can be forced; the theorems hold for all scripts); tied by step-log equality of forced real-thread schedules (harness/m1_lock.py, scenarios with ra=2 or a timeout -> drv_m1lu); proved for all interleavings: mutex / lock owner, pulls only by the lock owner, no deadlock, completion(=registration)-order delivery, timeout only after more than `timeout` ticks on one pending tracker, _raise_error_fast finds the failed job; NOT proved for M1LU (checked by the tie's oracles): item-level exactly-once / all-n-at-exhaustion (M1L's dispatch-side proofs were not ported), termination (the trace-level 'registered TimeoutError => the call raises' IS proved: M1LU.timeout_registered_raises_ordered / _unordered)",
     "M1L-Seq (lean/JoblibModel/ParallelLockSeq.lean, theorems M1LSeq.*): sequences of calls on one object at M1L granularity; between two calls the caller thread does nothing but return/raise and call again (one atomic step up to the lock of _reset_run_tracking); uuid4 call ids are pairwise distinct (modelled by a counter); the backend keeps calling back for batches of earlier calls from threads it does not join (worst case); termination of sequences is checked, not proved",
     "M1L (lean/JoblibModel/ParallelLock.lean, theorems M1L.*): a second, small-step, multi-threaded model of the same protocol; one atomic step = the code of one thread between two scheduling points (outermost acquire/release of Parallel._lock, a backend call, time.sleep, an unlocked access to _aborting/_exception/_iterating/_original_iterator/n_dispatched_tasks/n_completed_tasks/_jobs/tracker status), any number of callback threads, every interleaving; scope: one call on a fresh object, ordered modes, no timeout; tied to the code by step-log equality of forced real-thread schedules (instrumented lock, controllable backend, descriptor-instrumented shared attributes, no line numbers); assumed: threading.RLock mutual exclusion, atomicity of a single attribute load/store under the GIL; accesses to attributes outside the list and the input iterator's __next__ are atomic with their segment; termination under the drain schedule (completions, then callbacks, then the caller) is PROVED from every reachable state with an explicit bound (quiescent_termination*, measure 1300*W+100*P+100*L+R); termination under other fair schedules is not stated",
@@ -100,8 +107,10 @@ FOCUSES = (None, 'fail', 'timeout')
 def run(ctx):
     if native_pool.is_replay(ctx):
         return native_pool.replay(ctx, "C04")
+    if exc_transport.is_replay(ctx):
+        return exc_transport.replay(ctx)
     res = m1.run_prop(ctx, "C04", FOCUSES)
-    return res if ctx.replay else native_pool.probe(ctx, res, "C04")
+    return res if ctx.replay else exc_transport.probe(ctx, native_pool.probe(ctx, res, "C04"))
 
 
 def search(ctx, res):
